@@ -23,7 +23,9 @@ SPEC = {
                    "(C19_every_history_runs); a single MultiMapIterator::next (value / contains) terminates on any table "
                    "(C19_value_terminates). PARTIAL (C19_values_terminates_partial): draining iter_key (values / values_count / "
                    "contains_value, used by index search) terminates on every table where the slot before the key's home does not "
-                   "hold the key; that this holds after every history is argued (load limit) but not machine-checked. COUNTEREXAMPLE "
+                   "hold the key; that this holds after every history of the index multimap's operations is argued (load limit, "
+                   "Lemmas/NoWrap.lean) but not fully machine-checked, and it is false for mixed insert_or_replace + values histories "
+                   "(latent iterator defect, known finding, no database map is used that way). COUNTEREXAMPLE "
                    "(C19_tombstone_counterexample): on the pinned code the 65th insert_or_replace after 64 insert/remove cycles "
                    "diverges for every fuel (general divergence lemma + decide +kernel fact about the reachable 64-tombstone table). "
                    "Tie: slot-level differential stream on the real MultiMapStorage<u64,u64> (hook H2-coll: per-op state/key/value dump, "
